@@ -43,12 +43,12 @@ class MSession:
             s.close()
         self.solvers = {}
 
-    def obligation(self, tag, decls, name, asserts, expect="unsat", values=(), note="", also=()):
+    def obligation(self, tag, decls, name, asserts, expect="unsat", values=(), note="", also=(), local_decls=()):
         """Discharge one query.  expect='unsat': the negated property must be unsatisfiable.
         expect='sat': vacuity / reachability twin.  Returns (verdict, model dict)."""
         s = self.solver(self.primary, tag, decls)
         tq = time.time()
-        verdict, model_lines = s.check(asserts, values=values if expect == "unsat" else ())
+        verdict, model_lines = s.check(asserts, values=values if expect == "unsat" else (), local_decls=local_decls)
         tq = time.time() - tq
         model = smt.parse_values(model_lines) if model_lines else {}
         self.nq += 1
@@ -58,7 +58,7 @@ class MSession:
             verdict = "error"
         for other in also:
             so = self.solver(other, tag, decls)
-            v2, _ = so.check(asserts)
+            v2, _ = so.check(asserts, local_decls=local_decls)
             rec["verdict_" + other] = v2
             if v2 in ("sat", "unsat") and verdict in ("sat", "unsat") and v2 != verdict:
                 rec["solver_disagreement"] = True
